@@ -666,24 +666,33 @@ impl AstLowering {
     pub(super) fn lower_match_arms(&mut self, arms: &[Spanned<ast::MatchArm>]) -> Result<Vec<MatchArm>, LoweringError> {
         arms.iter()
             .map(|a| {
-                let pattern = self.lower_pattern(&a.node.pattern.node);
-                let guard = a.node.guard.as_ref().map(|g| self.lower_expr(&g.node)).transpose()?;
-                let body = match &a.node.body {
-                    ast::MatchBody::Expr(e) => self.lower_expr(&e.node)?,
-                    ast::MatchBody::Block(stmts) => {
-                        let ir_stmts = self.lower_statements(stmts)?;
-                        TypedExpr::new(
-                            IrExprKind::Block {
-                                stmts: ir_stmts,
-                                value: None,
-                            },
-                            IrType::Unit,
-                        )
-                    }
-                };
-                Ok(MatchArm { pattern, guard, body })
+                // Each arm is its own lexical scope: a name bound in one arm must not be visible in the next one.
+                self.scopes.push(Default::default());
+                let arm = self.lower_match_arm(a);
+                self.scopes.pop();
+                arm
             })
             .collect()
+    }
+
+    /// Lower a single match arm (pattern, optional guard, body) in the current scope.
+    fn lower_match_arm(&mut self, a: &Spanned<ast::MatchArm>) -> Result<MatchArm, LoweringError> {
+        let pattern = self.lower_pattern(&a.node.pattern.node);
+        let guard = a.node.guard.as_ref().map(|g| self.lower_expr(&g.node)).transpose()?;
+        let body = match &a.node.body {
+            ast::MatchBody::Expr(e) => self.lower_expr(&e.node)?,
+            ast::MatchBody::Block(stmts) => {
+                let ir_stmts = self.lower_statements(stmts)?;
+                TypedExpr::new(
+                    IrExprKind::Block {
+                        stmts: ir_stmts,
+                        value: None,
+                    },
+                    IrType::Unit,
+                )
+            }
+        };
+        Ok(MatchArm { pattern, guard, body })
     }
 
     /// Lower a pattern to IR.
